@@ -84,6 +84,13 @@ def run(ctx, chk):
         b = an.one(chk, "R21", bio, "Seq::trim_u8", name="trim_u8", self_re=r"^seq::Seq<A>$", inherent=True)
         if b:
             check_trim(chk, cfg, b)
+        # "displays as the same letters": the comparison is made on what Display prints, so the clause rests on Display being the
+        # per-symbol to_char string of the whole content (C01's S-display rows) and on the iteration rows the conversions collect from
+        import core
+        core.import_rows(chk, cfg, "C01", "props.C01", ("S-display",))
+        # conversions collect the source's symbols: iter() rows (C11) and one push per item (C06)
+        core.import_rows(chk, cfg, "C11", "props.C11", ("G02", "G05c/into_iter", "S-glue"))
+        core.import_rows(chk, cfg, "C06", "props.C06", ("S-extend", "R08"))
     chk.floor("sequence conversions", nconv, 3 * len(chk.configs))
 
 
